@@ -16,6 +16,44 @@ use std::sync::{Arc, Mutex};
 
 static LAST_PANIC: Mutex<String> = Mutex::new(String::new());
 
+/// the call into rcgen that is under way (what, and the bytes it was given), for the watchdog:
+/// a call that does not come back within `VERIF_OP_TIMEOUT` seconds (default 90) ends the run
+/// with exit status 4 and the input on standard error — `check` reports it as a violation of the
+/// property being run, with that input
+static OP: Mutex<(String, Vec<u8>)> = Mutex::new((String::new(), Vec::new()));
+static OP_START: std::sync::atomic::AtomicU64 = std::sync::atomic::AtomicU64::new(0);
+
+fn now_secs() -> u64 {
+	std::time::SystemTime::now().duration_since(std::time::UNIX_EPOCH).map(|d| d.as_secs()).unwrap_or(1)
+}
+
+pub fn begin_op(what: &str, bytes: &[u8]) {
+	if let Ok(mut g) = OP.lock() {
+		g.0.clear();
+		g.0.push_str(what);
+		g.1.clear();
+		g.1.extend_from_slice(bytes);
+	}
+	OP_START.store(now_secs(), std::sync::atomic::Ordering::SeqCst);
+}
+
+pub fn end_op() {
+	OP_START.store(0, std::sync::atomic::Ordering::SeqCst);
+}
+
+fn start_watchdog() {
+	let limit: u64 = std::env::var("VERIF_OP_TIMEOUT").ok().and_then(|v| v.parse().ok()).unwrap_or(90);
+	std::thread::spawn(move || loop {
+		std::thread::sleep(std::time::Duration::from_secs(2));
+		let st = OP_START.load(std::sync::atomic::Ordering::SeqCst);
+		if st != 0 && now_secs().saturating_sub(st) > limit {
+			let (what, bytes) = OP.lock().map(|g| (g.0.clone(), g.1.clone())).unwrap_or_default();
+			eprintln!("WATCHDOG-NO-RETURN after {} s: {}\nbytes={}", limit, what, sexp::hex(&bytes));
+			std::process::exit(4);
+		}
+	});
+}
+
 pub fn last_panic() -> String {
 	LAST_PANIC.lock().map(|s| s.clone()).unwrap_or_default()
 }
@@ -47,6 +85,7 @@ fn main() {
 			*g = msg;
 		}
 	}));
+	start_watchdog();
 	let args: Vec<String> = std::env::args().collect();
 	let mut prop = String::new();
 	let mut out = String::new();
@@ -90,7 +129,23 @@ fn main() {
 	}
 	let seed: u64 = std::env::var("VERIF_SEED").ok().and_then(|s| s.parse::<i64>().ok()).map(|v| v as u64).unwrap_or(20260929);
 	let rsa_fixture = keys::rsa_pkcs8(2048);
-	let ed_key = Arc::new(keys::local_key(&rcgen::PKCS_ED25519, &rsa_fixture));
+	// (every runner uses an Ed25519 key: generated and held locally where there is a back end, a
+	// remote signer wrapped by `KeyPair::from_remote` in the crypto-less build.  If that cannot be
+	// had, that is the finding)
+	let ed_key = match std::panic::catch_unwind(|| keys::local_key(&rcgen::PKCS_ED25519, &rsa_fixture)) {
+		Ok(k) => Arc::new(k),
+		Err(_) => {
+			let mut rep = report::Report::new(&prop, "no case could be run");
+			rep.violate(&format!("{}:ed25519-key-unavailable", prop), "an Ed25519 key cannot be made available in this build (KeyPair::generate_for / a loader, or KeyPair::from_remote around a remote Ed25519 signer with its 32-octet public key)", format!("feature build: {}\n{}", std::env::var("VERIF_FEATURE").unwrap_or_default(), last_panic()));
+			let js = rep.to_json();
+			if out.is_empty() {
+				println!("{}", js);
+			} else {
+				std::fs::write(&out, js).unwrap();
+			}
+			return;
+		},
+	};
 	let mut ctx = Ctx { seed, thorough, rsa_fixture, keys: HashMap::new(), ed_key };
 	let result = std::panic::catch_unwind(std::panic::AssertUnwindSafe(|| match prop.as_str() {
 		"C13" => props::c13::run(&mut ctx),
